@@ -18,6 +18,7 @@ CALIBRATE = bool(os.environ.get('NVERIF_CALIBRATE'))
 FLOOR = 64.0
 ILL_CONDITIONED = 1e4
 DYNAMIC_RANGE = 1e30
+TOL_USER = 1e3
 
 
 def tol_for(table, method, n, bucket):
@@ -52,7 +53,7 @@ class C01(Prop):
             self.table = dc.load_constants().get('C01_tol', {})
         except Exception:
             self.table = {}
-        self.constants = {'FLOOR_eps_multiple': FLOOR, 'ILL_CONDITIONED': ILL_CONDITIONED, 'DYNAMIC_RANGE': DYNAMIC_RANGE, 'tol_table': 'nverif/constants.json:C01_tol'}
+        self.constants = {'FLOOR_eps_multiple': FLOOR, 'ILL_CONDITIONED': ILL_CONDITIONED, 'DYNAMIC_RANGE': DYNAMIC_RANGE, 'TOL_USER': TOL_USER, 'tol_table': 'nverif/constants.json:C01_tol'}
 
     def strategy(self, tier):
         return dc.derivative_case()
@@ -103,13 +104,15 @@ class C01(Prop):
                         break
         ctx.count('k_est=%s' % dc.kbucket(ev.k_est))
         ctx.count('cfg=%s' % bucket)
-        tol = tol_for(self.table, method, n, bucket)
+        # library-chosen steps: calibrated table on the best-window unit; user-supplied steps: a fixed
+        # multiple of the worst-window unit (DESIGN 10.1)
+        tol = TOL_USER if bucket == 'user' else tol_for(self.table, method, n, bucket)
         ctx.count('cell|%s|%d|%s' % (method, n, bucket))
         nontrivial = False
         for j, xv in enumerate(case['x']):
             lib = complex(ev.vals[j]) if cplx else ev.vals[j]
             exact = ev.exact_f[j]
-            U, S1 = ev.U[j], ev.S1[j]
+            U, S1 = (ev.Umax[j] if bucket.startswith('user') else ev.U[j]), ev.S1[j]
             if not np.isfinite(lib):
                 raise Violation('finite', 'result is %r at x=%r (every sample point is inside the certified '
                                 'domain)' % (lib, xv), method=method, n=n, order=order)
